@@ -914,19 +914,20 @@ theorem appendPut_rd (lx : Bool) (m : Mem) (a : PutArgs) (sup reuse : Option Nat
 theorem putTail_rd (lx : Bool) (m : Mem) (a : PutArgs) (sup reuse : Option Nat) (t : Trace) (hi : Inv m) (hr : RdOk lx m)
     (hsup : ∀ x, sup = some x → x < m.frames.length) (hreu : ∀ x, reuse = some x → x < m.frames.length) :
     RdOk lx (m.putTail a sup reuse t).1 := by
+  have hi1 : Inv (m.appendPut a sup reuse) := by
+    constructor
+    · show AllOk m.frames.length (m.pending ++ putRecords m.seq a sup reuse)
+      intro r hr0
+      rcases List.mem_append.mp hr0 with hr0 | hr0
+      · exact hi.ok r hr0
+      · exact allOk_putRecords _ _ _ _ _ hsup hreu r hr0
+    · show m.pendingInserts + (putRecords m.seq a sup reuse).length = countInserts (m.pending ++ putRecords m.seq a sup reuse)
+      rw [countInserts_append, countInserts_putRecords, hi.pi]
+  have hfin : RdOk lx (((m.appendPut a sup reuse).afterAppend t).addCards a.nc (m.seq + 1)) :=
+    RdOk.of_same (addCards_same _ _ _) (afterAppend_rd lx _ t hi1 (appendPut_rd lx m a sup reuse hr))
   unfold Mem.putTail
-  split
-  · exact hr
-  · have hi1 : Inv (m.appendPut a sup reuse) := by
-      constructor
-      · show AllOk m.frames.length (m.pending ++ putRecords m.seq a sup reuse)
-        intro r hr0
-        rcases List.mem_append.mp hr0 with hr0 | hr0
-        · exact hi.ok r hr0
-        · exact allOk_putRecords _ _ _ _ _ hsup hreu r hr0
-      · show m.pendingInserts + (putRecords m.seq a sup reuse).length = countInserts (m.pending ++ putRecords m.seq a sup reuse)
-        rw [countInserts_append, countInserts_putRecords, hi.pi]
-    exact RdOk.of_same (addCards_same _ _ _) (afterAppend_rd lx _ t hi1 (appendPut_rd lx m a sup reuse hr))
+  -- every rejection (capacity checks) leaves the handle as it was
+  repeat' (first | exact hr | exact hfin | split)
 
 theorem putCore_rd (lx : Bool) (m : Mem) (a : PutArgs) (sup reuse : Option Nat) (t : Trace) (hi : Inv m) (hr : RdOk lx m)
     (hsup : ∀ x, sup = some x → x < m.frames.length) (hreu : ∀ x, reuse = some x → x < m.frames.length) :
@@ -1059,6 +1060,21 @@ theorem crash_rd (lx : Bool) (m : Mem) (ft : Nat) (hi : Inv m) (hr : RdOk lx m) 
 
 /-! ### skip-index commit, finalize, vacuum, doctor -/
 
+theorem foldEmbs_report (m1 : Mem) (embs : List VecEnt) (hv : ∀ e ∈ m1.vec.getD [], isActive m1.frames e.id = true)
+    (he : ∀ e ∈ embs, isActive m1.frames e.id = true) :
+    (m1.foldEmbs embs).frames = m1.frames ∧ (m1.foldEmbs embs).engine = m1.engine ∧
+    (m1.foldEmbs embs).lexEnabled = m1.lexEnabled ∧
+    (∀ e ∈ (m1.foldEmbs embs).vec.getD [], isActive m1.frames e.id = true) := by
+  unfold Mem.foldEmbs
+  split
+  · exact ⟨rfl, rfl, rfl, hv⟩
+  · refine ⟨rfl, rfl, rfl, ?_⟩
+    intro e h0
+    have h1 : e ∈ (m1.vec.getD []).filter (fun e => isActive m1.frames e.id) ++ embs := h0
+    rcases List.mem_append.mp h1 with h | h
+    · exact (List.mem_filter.mp h).2
+    · exact he e h
+
 /-- `commit_skip_indexes` keeps everything but the lexical part: the engine is detached while the
     records are applied, so a superseded / deleted frame keeps its engine document -/
 theorem commitSkip_rd (lx : Bool) (m : Mem) (hi : Inv m) (hr : RdOk lx m) : RdOk false m.commitSkipIndexes.1 := by
@@ -1068,17 +1084,31 @@ theorem commitSkip_rd (lx : Bool) (m : Mem) (hi : Inv m) (hr : RdOk lx m) : RdOk
   · split
     · exact RdOk.of_same (m := m) ⟨rfl, rfl, rfl, rfl, rfl, rfl, rfl, [], onlyLex_nil, by simp⟩ hr.weaken
     · rename_i m1 δ h1
-      obtain ⟨hd1, hv1, _, _, _, _, _, hen1, hle1⟩ := applyRecords_rd m m.pending false m1 δ hi.ok hr.dense hr.vec h1
-      exact ⟨hd1, by show m1.engine = true; rw [hen1]; exact hr.eng, by show m1.lexEnabled = true; rw [hle1]; exact hr.lexOn,
-        hv1, (fun e he => by cases he), (fun e he => by cases he), (fun h => by cases h)⟩
+      obtain ⟨hd1, hv1, he1, _, _, _, _, hen1, hle1⟩ := applyRecords_rd m m.pending false m1 δ hi.ok hr.dense hr.vec h1
+      obtain ⟨ff, fe, fl, fv⟩ := foldEmbs_report m1 δ.embs hv1 he1
+      refine ⟨?_, ?_, ?_, ?_, (fun e he => by cases he), (fun e he => by cases he), (fun h => by cases h)⟩
+      · show DenseF (m1.foldEmbs δ.embs).frames
+        rw [ff]; exact hd1
+      · show (m1.foldEmbs δ.embs).engine = true
+        rw [fe, hen1]; exact hr.eng
+      · show (m1.foldEmbs δ.embs).lexEnabled = true
+        rw [fl, hle1]; exact hr.lexOn
+      · intro e he
+        show isActive (m1.foldEmbs δ.embs).frames e.id = true
+        rw [ff]; exact fv e he
+
+/-- a full rebuild on top of any handle whose lexical index is enabled -/
+theorem rebuildAll_settled (m : Mem) (ft : Nat) (hle : m.lexEnabled = true) (hd : DenseF m.frames) :
+    Settled true (m.rebuildIndexes [] [] ft) := by
+  obtain ⟨rf, re, rl, _, rv, rpv, rt, rlx⟩ := rebuildIndexes_rd m [] [] ft hle hd (fun e he => by cases he)
+  exact ⟨by rw [rf]; exact hd, re, rl, by rw [rf]; exact rv, by rw [rf]; exact rpv, by rw [rf]; exact rt,
+    fun _ => by rw [rf]; exact rlx (Or.inr (Or.inl rfl))⟩
 
 /-- `finalize_indexes` (a full rebuild) restores the lexical part -/
 theorem finalize_rd (lx : Bool) (m : Mem) (ft : Nat) (hr : RdOk lx m) : RdOk true (m.finalizeIndexes ft).1 := by
-  obtain ⟨rf, re, rl, _, rv, rpv, rt, rlx⟩ :=
-    rebuildIndexes_rd m [] [] ft hr.lexOn hr.dense (fun e he => by cases he)
-  show RdOk true (m.rebuildIndexes [] [] ft)
-  exact ⟨by rw [rf]; exact hr.dense, re, rl, by rw [rf]; exact rv, by rw [rf]; exact rpv, by rw [rf]; exact rt,
-    fun _ => Or.inr (by rw [rf]; exact rlx (Or.inr (Or.inl rfl)))⟩
+  have s := rebuildAll_settled m ft hr.lexOn hr.dense
+  unfold Mem.finalizeIndexes
+  exact s.rdOk rfl rfl rfl rfl rfl rfl rfl
 
 theorem isActive_of_view (fs gs : List Frame) (h : fs.map view = gs.map view) (id : Nat) : isActive fs id = isActive gs id := by
   have h1 : (fs.map view)[id]? = (gs.map view)[id]? := by rw [h]
@@ -1112,13 +1142,6 @@ theorem denseF_of_view_eq (fs gs : List Frame) (h : fs.map view = gs.map view) (
     have : f.id = g.id := congrArg SFrame.id h1
     rw [this]; exact hd i g hg
 
-/-- a full rebuild on top of any handle whose lexical index is enabled -/
-theorem rebuildAll_settled (m : Mem) (ft : Nat) (hle : m.lexEnabled = true) (hd : DenseF m.frames) :
-    Settled true (m.rebuildIndexes [] [] ft) := by
-  obtain ⟨rf, re, rl, _, rv, rpv, rt, rlx⟩ := rebuildIndexes_rd m [] [] ft hle hd (fun e he => by cases he)
-  exact ⟨by rw [rf]; exact hd, re, rl, by rw [rf]; exact rv, by rw [rf]; exact rpv, by rw [rf]; exact rt,
-    fun _ => by rw [rf]; exact rlx (Or.inr (Or.inl rfl))⟩
-
 /-- `vacuum` (commit, compaction, full rebuild) restores the lexical part -/
 theorem vacuum_rd (lx : Bool) (m : Mem) (a b : Nat) (hi : Inv m) (hr : RdOk lx m) : RdOk true (m.vacuum a b).1 := by
   have hc := commit_rd lx m a hi hr
@@ -1130,17 +1153,15 @@ theorem vacuum_rd (lx : Bool) (m : Mem) (a b : Nat) (hi : Inv m) (hr : RdOk lx m
     (denseF_of_view_eq _ _ hv hc.dense)
   exact s.rdOk rfl rfl rfl rfl rfl rfl rfl
 
+theorem rebuild_reset_rd (X : Mem) (ft : Nat) (hle : X.lexEnabled = true) (hd : DenseF X.frames) :
+    RdOk true (X.rebuildIndexes [] [] ft).resetWal :=
+  (rebuildAll_settled X ft hle hd).rdOk rfl rfl rfl rfl rfl rfl rfl
+
 theorem doctorRebuild_rd (lx : Bool) (m2 : Mem) (rv : Bool) (ft : Nat) (hr : RdOk lx m2) :
     RdOk true (m2.doctorRebuild rv ft) := by
   unfold Mem.doctorRebuild
-  split
-  · have s := rebuildAll_settled ({ m2 with vecEnabled := true, vecManifest := false, vec := none, pVec := none } : Mem) ft hr.lexOn hr.dense
-    exact s.rdOk rfl rfl rfl rfl rfl rfl rfl
-  · split
-    · have s := rebuildAll_settled ({ m2 with vec := m2.pVec } : Mem) ft hr.lexOn hr.dense
-      exact s.rdOk rfl rfl rfl rfl rfl rfl rfl
-    · have s := rebuildAll_settled m2 ft hr.lexOn hr.dense
-      exact s.rdOk rfl rfl rfl rfl rfl rfl rfl
+  -- whatever is done to the vector fields first, the frame table and the lexical switch are m2's
+  repeat' (first | exact rebuild_reset_rd _ ft hr.lexOn hr.dense | split)
 
 theorem doctor_rd (lx : Bool) (m : Mem) (vac rt rl rv : Bool) (a b c d : Nat) (hi : Inv m) (hr : RdOk lx m) :
     RdOk lx (m.doctor vac rt rl rv a b c d).1 := by
@@ -1170,9 +1191,11 @@ theorem doctor_rd (lx : Bool) (m : Mem) (vac rt rl rv : Bool) (a b c d : Nat) (h
     · exact h1
   have hd2 := dropHandle_inv _ c h2.1.inv
   unfold Mem.doctor
-  split
-  · exact openFrom_rd lx _ d hd2.ok (dropHandle_rd lx _ c h2.1.inv h2.2)
-  · exact openFrom_rd lx _ d hd.ok (dropHandle_rd lx m a hi hr)
+  first
+    | exact openFrom_rd lx _ d hd2.ok (dropHandle_rd lx _ c h2.1.inv h2.2)
+    | (split
+       · exact openFrom_rd lx _ d hd2.ok (dropHandle_rd lx _ c h2.1.inv h2.2)
+       · exact openFrom_rd lx _ d hd.ok (dropHandle_rd lx m a hi hr))
 
 /-! ### every operation -/
 
